@@ -485,6 +485,9 @@ def constrained():
         out.append((dict(rec5, violating=[{'b': True}, {'a': 9, 'b': True}, {'a': 0, 'b': False}]), {'a': 3, 'b': True}))
     rec3 = T('SET', fields=[('a', T('INTEGER'), 'opt'), ('b', T('BOOLEAN', [('I', CTX, 0)]), 'opt')], absent=['b'])
     out.append((dict(rec3, violating=[{'b': True}, {'a': 1, 'b': False}]), {'a': 1}))
+    # ABSENT on a DEFAULT member: the member takes its default value by being left out
+    rec6 = T('SEQUENCE', fields=[('d', T('INTEGER'), ('default', 5)), ('b', T('INTEGER', [('I', CTX, 0)]), 'req')], absent=['d'])
+    out.append((dict(rec6, violating=[{'d': 7, 'b': 1}]), {'b': 1}))
     # SIZE on a record counts the members that are present (not the slots reads have touched)
     rec4 = T('SEQUENCE', fields=[('x', T('INTEGER'), 'opt'), ('y', T('INTEGER', [('I', CTX, 0)]), 'opt')], size=(1, 1))
     out.append((dict(rec4, violating=[{}, {'x': 1, 'y': 2}]), {'x': 1}))
